@@ -11,10 +11,26 @@ import (
 
 // AddPairs attaches metadata onto a context and return the context.
 func AddPairs(ctx context.Context, metadata map[string]string) context.Context {
-	for key, val := range metadata {
-		ctx = Add(ctx, key, val)
+	if len(metadata) == 0 {
+		return ctx
 	}
-	return ctx
+	return context.WithValue(ctx, metadataKey{}, extend(ctx, metadata, len(metadata)))
+}
+
+// extend returns a fresh map holding the pairs already on the context followed
+// by the given ones. The map stored in a context is never written to again:
+// contexts that were derived earlier, possibly for other calls, keep seeing
+// exactly what they were given.
+func extend(ctx context.Context, pairs map[string]string, n int) map[string]string {
+	old, _ := Get(ctx)
+	metadata := make(map[string]string, len(old)+n)
+	for key, val := range old {
+		metadata[key] = val
+	}
+	for key, val := range pairs {
+		metadata[key] = val
+	}
+	return metadata
 }
 
 // Encode generates byte form of the metadata and appends it onto the passed in buffer.
@@ -52,13 +68,9 @@ type metadataKey struct{}
 
 // Add associates a key/value pair on the context.
 func Add(ctx context.Context, key, value string) context.Context {
-	metadata, ok := Get(ctx)
-	if !ok {
-		metadata = make(map[string]string)
-		ctx = context.WithValue(ctx, metadataKey{}, metadata)
-	}
+	metadata := extend(ctx, nil, 1)
 	metadata[key] = value
-	return ctx
+	return context.WithValue(ctx, metadataKey{}, metadata)
 }
 
 // Get returns all key/value pairs on the given context.
